@@ -540,6 +540,17 @@ HTPcreate(filerec_t *file_rec, /* IN: File record to store info in */
     if (file_rec == NULL || (tag == DFTAG_NULL || tag == DFTAG_WILDCARD) || ref == DFREF_WILDCARD)
         HGOTO_ERROR(DFE_ARGS, FAIL);
 
+    /* The name has to be free (the ordinary and the special form of a tag
+       share their reference numbers): for a duplicate no descriptor is
+       claimed, or it would stay in the list and reach the file */
+    {
+        uint16     base_tag = BASETAG(tag);
+        tag_info **tip_ptr  = (tag_info **)tbbtdfind(file_rec->tag_tree, (void *)&base_tag, NULL);
+
+        if (tip_ptr != NULL && bv_get((*tip_ptr)->b, (int)ref) == BV_TRUE)
+            HGOTO_ERROR(DFE_DUPDD, FAIL);
+    }
+
     if (HTIfind_dd(file_rec, (uint16)DFTAG_NULL, (uint16)DFTAG_WILDCARD, &dd_ptr, DF_FORWARD) == FAIL) {
         if (HTInew_dd_block(file_rec) == FAIL) {
             HGOTO_ERROR(DFE_NOFREEDD, FAIL);
@@ -1909,9 +1920,10 @@ HTIcount_dd(filerec_t *file_rec, uint16 cnt_tag, uint16 cnt_ref, unsigned *all_c
 static int
 HTIregister_tag_ref(filerec_t *file_rec, dd_t *dd_ptr)
 {
-    tag_info  *tinfo_ptr;                        /* pointer to the info for a tag */
+    tag_info  *tinfo_ptr = NULL;                 /* pointer to the info for a tag */
     tag_info **tip_ptr;                          /* ptr to the ptr to the info for a tag */
     uint16     base_tag  = BASETAG(dd_ptr->tag); /* the base tag for the tag tree */
+    int        new_tag   = FALSE;                /* whether the info for the tag was made here */
     int        ret_value = SUCCEED;
 
     HEclear();
@@ -1921,6 +1933,7 @@ HTIregister_tag_ref(filerec_t *file_rec, dd_t *dd_ptr)
         if ((tinfo_ptr = (tag_info *)calloc(1, sizeof(tag_info))) == NULL)
             HGOTO_ERROR(DFE_NOSPACE, FAIL);
         tinfo_ptr->tag = base_tag;
+        new_tag        = TRUE;
 
         /* Insert the tag node into the tree */
         tbbtdins(file_rec->tag_tree, (void *)tinfo_ptr, NULL);
@@ -1958,8 +1971,12 @@ HTIregister_tag_ref(filerec_t *file_rec, dd_t *dd_ptr)
 done:
     if (ret_value == FAIL) { /* Error condition cleanup */
 
-        if ((tinfo_ptr != NULL) && (tinfo_ptr->d != NULL))
+        /* only what was set up here: the array of a tag that has other
+           objects is in use (a duplicate tag/ref ends up here) */
+        if (new_tag && (tinfo_ptr != NULL) && (tinfo_ptr->d != NULL)) {
             DAdestroy_array(tinfo_ptr->d, 0);
+            tinfo_ptr->d = NULL;
+        }
     }
 
     return ret_value;
